@@ -366,6 +366,24 @@ def case_runner(ctx, rng, idx):
     okc, runner = ctx.call("call-trace", ProbeRunner, s, cls="constructor", detail=tag)
     if not okc:
         return
+    if rng.random() < 0.3:
+        # a parameter that was added (and marked for unpacking) and removed again
+        # leaves no trace in the grid
+        def add_and_remove():
+            runner.params.add("temp", [7, 8, 9])
+            runner.params.set_unpack_parameter("temp")
+            n_with = runner.params.get_num_unpacked_variations()
+            runner.params.remove("temp")
+            return n_with
+        okc, n_with = ctx.call("call-trace", add_and_remove, cls="params.remove", detail=tag)
+        if not okc:
+            return
+        nvar0 = len(expected_variations(s))
+        ctx.ev("call-trace", n_with == 3 * nvar0 and
+               runner.params.get_num_unpacked_variations() == nvar0 and
+               "temp" not in runner.params.unpacked_parameters, cls="params.remove:grid",
+               detail={**tag, "with": n_with, "after": runner.params.get_num_unpacked_variations()})
+        tag = {**tag, "temp-parameter-added-and-removed": True}
     if idx % 4 == 3:
         # the first simulate() dies in user code after k calls; the user fixes the
         # problem and calls simulate() again on the same runner
